@@ -189,13 +189,13 @@ CLAIMED.update({
               'C04_always_killable (from EVERY reachable live configuration a further kill() kills at once or is the pending kill of '
               'the step in flight). The monitor additionally checks the result of kill(), the kill text, future cancellation, that no '
               'step function starts after the request, that a failed step excepts, and requests issued from listener notifications. '
-              'Requests made DURING the closing part of a step (model PMF.L, every plan / nesting depth / configuration): '
-              'C04_listener_pending_kill_enacted, C04_listener_kill_enacted, C04_listener_kill_never_lost (a kill() issued by a '
-              'listener or state-event callback while the step is closing, also while a pause is being enacted, has left the process '
-              'KILLED / EXCEPTED when the closing part returns), C04_listener_nothing_left_pending (the finally of step() cancels '
-              'nothing a listener asked for on a live process). Not proved: that every configuration reached WITH listeners '
-              'satisfies the hypotheses of these theorems when a step starts closing (def C04_listener_reachable_invariant; proved '
-              'without listeners: C04_no_stale_killing); decided by the correspondence of the listener stream.'),
+              'Requests made DURING transitions by listeners / state-event callbacks (model PMF.L, every program, plan, history): '
+              'C04_listener_no_stale_killing (invariant KJ in every reachable configuration), C04_listener_kill_committed (a kill() '
+              'issued by a listener on a live process, inside or outside a step, also while a pause is being enacted, has left the '
+              'process KILLED / EXCEPTED or is the pending interrupt action of the step in flight), '
+              'C04_listener_kill_effective_between_steps, C04_listener_pending_kill_enacted and C04_listener_kill_enacted (it is '
+              'enacted when the closing part of the step returns), C04_listener_nothing_left_pending (the finally of step() cancels '
+              'nothing a listener asked for on a live process).'),
     'C05': pm('Theorems C05_nothing_runs_while_paused (no activation in any history starts with paused = true), C05_pause_total, '
               'C05_play_total, C05_play_unpauses, C05_play_cancels_pending_pause. With requests made by listeners during '
               'transitions (model PMF.L): C05_listener_no_stale_interruption, C05_listener_new_wait_not_interrupted (the closing part '
